@@ -13,13 +13,14 @@
      cell_of cols r c         the cell of row r in column c
      renum t ityp nm          the renumbering of ids: identity on integers when ityp, else the 1-based rank of
                               first appearance in the id column
-     is_none p                p is empty or -1 ("no parent")
+     is_none p                p is empty or -1;   no_parent ityp p = is_none p, or p = "" (CStr 0) when the ids
+                              are renumbered (not integer-typed)
      wf_map cols nm           valid clean mapping: keys and list-mapping columns pairwise distinct, id / parent_id
                               single, time mapped, pos a list of >= 2 columns (ellipse_axis_radii of the same
                               length if mapped), no empty list, every mapped column exists
-     wf_table t ityp nm       distinct column names, rectangular, [a raw column named "id" duplicate-free], ids
-                              distinct / non-empty / not -1 (integers when ityp), every parent is none or the
-                              id of another row
+     wf_table t ityp nm       distinct column names, rectangular, the MAPPED id column distinct / non-empty /
+                              not -1 / not "" (integers when ityp), every parent is "no parent" or the id of
+                              another row
    An empty cell of a mapped column is imported as the attribute value CNone (numpy renders it NaN, or the
    string "nan" in a string column): present, not absent.  On the GEFF path a missing value makes the
    attribute absent. *)
@@ -41,7 +42,7 @@ Proof. exact csv_nodes_edges. Qed.
 Theorem C12_csv_edges_iff : forall t ityp trk lin nm g,
   wf_map (t_cols t) nm = true -> wf_table t ityp nm = true -> import_csv t ityp trk lin nm = Ok g ->
   forall u v, In (u, v) (g_edges g) <->
-    exists r, In r (t_rows t) /\ is_none (cell_of (t_cols t) r (par_col nm)) = false /\
+    exists r, In r (t_rows t) /\ no_parent ityp (cell_of (t_cols t) r (par_col nm)) = false /\
               u = renum t ityp nm (cell_of (t_cols t) r (par_col nm)) /\
               v = renum t ityp nm (cell_of (t_cols t) r (id_col nm)).
 Proof. exact csv_edges_iff. Qed.
@@ -74,12 +75,14 @@ Theorem C12_csv_reject_duplicate_id : forall t ityp trk lin nm,
   import_csv t ityp trk lin nm = ValueErr.
 Proof. exact csv_reject_duplicate_id. Qed.
 
-(* integer-typed ids only: with renumbered ids an unknown parent is silently dropped, see
-   C12_unknown_parent_accepted_when_renumbered below *)
-Theorem C12_csv_reject_unknown_parent : forall t trk lin nm r z,
+(* a parent that is neither "no parent" nor an id - integer-typed and renumbered ids alike
+   (with integer-typed ids the parent cell is an integer-valued number: int() of other cells is outside the model) *)
+Theorem C12_csv_reject_unknown_parent : forall t ityp trk lin nm r,
   wf_map (t_cols t) nm = true -> In r (t_rows t) ->
-  cell_of (t_cols t) r (par_col nm) = CInt z -> z <> -1 -> ~ In (CInt z) (column t (id_col nm)) ->
-  import_csv t true trk lin nm = ValueErr.
+  no_parent ityp (cell_of (t_cols t) r (par_col nm)) = false ->
+  ~ In (cell_of (t_cols t) r (par_col nm)) (column t (id_col nm)) ->
+  (ityp = true -> is_int (cell_of (t_cols t) r (par_col nm)) = true) ->
+  import_csv t ityp trk lin nm = ValueErr.
 Proof. exact csv_reject_unknown_parent. Qed.
 
 Theorem C12_csv_reject_self_parent : forall t ityp trk lin nm r,
@@ -214,7 +217,7 @@ Proof. vm_compute. reflexivity. Qed.
 
 (* malformed variants of T1 / T2 *)
 Example C12_rejections :
-  (* duplicate id under the renamed id column (caught by the structural validation, not by the raw "id" check) *)
+  (* duplicate id under the renamed id column (the uniqueness check looks at the mapped column) *)
   import_csv {| t_cols := t_cols T1; t_rows := [[CStr 1; CNone; CInt 0; CTok 1; CTok 2; CInt 7];
                                                 [CStr 1; CNone; CInt 1; CTok 3; CInt 4; CInt 8]] |} false true true M1 = ValueErr /\
   (* unknown parent 99, self parent 3 (integer ids) *)
@@ -228,26 +231,30 @@ Example C12_rejections :
   import_csv {| t_cols := []; t_rows := [] |} false true true M1 = OtherErr 1.
 Proof. vm_compute. repeat split; reflexivity. Qed.
 
-(* ---------- where the property text does not hold of the code (confirmed on the implementation) ---------- *)
-(* non-integer ids: a parent that is no id ("zz" = CStr 9) is silently treated as "no parent" *)
-Example C12_unknown_parent_accepted_when_renumbered :
-  exists g, import_csv {| t_cols := t_cols T1; t_rows := [[CStr 1; CNone;  CInt 0; CTok 1; CTok 2; CInt 7];
-                                                          [CStr 2; CStr 9; CInt 1; CTok 3; CInt 4; CInt 8]] |} false true true M1 = Ok g
-            /\ map fst (g_nodes g) = [1; 2] /\ g_edges g = [].
-Proof. eexists. vm_compute. repeat split; reflexivity. Qed.
+(* repaired (commits d9b3fd7, 4d91e11): with non-integer ids a parent that is no id ("zz" = CStr 9) is rejected
+   too, and "" (CStr 0) means "no parent" *)
+Example C12_unknown_parent_rejected_when_renumbered :
+  import_csv {| t_cols := t_cols T1; t_rows := [[CStr 1; CNone;  CInt 0; CTok 1; CTok 2; CInt 7];
+                                                [CStr 2; CStr 9; CInt 1; CTok 3; CInt 4; CInt 8]] |} false true true M1 = ValueErr /\
+  exists g, import_csv {| t_cols := t_cols T1; t_rows := [[CStr 1; empty_str; CInt 0; CTok 1; CTok 2; CInt 7];
+                                                          [CStr 2; CStr 1;    CInt 1; CTok 3; CInt 4; CInt 8]] |} false true true M1 = Ok g
+            /\ map fst (g_nodes g) = [1; 2] /\ g_edges g = [(1, 2)].
+Proof. split; [vm_compute; reflexivity|]. eexists. vm_compute. repeat split; reflexivity. Qed.
 
-(* a column literally called "id" (code 2) that is not the id column and repeats a value: ValueError,
-   although the table is well-formed under the mapping id -> 100 *)
-Example C12_raw_id_column_clash :
+(* a column literally called "id" (code 2) that is not the id column and repeats a value does not matter:
+   the table is well-formed under the mapping id -> 100 and is imported *)
+Example C12_raw_id_column_ignored :
   let t := {| t_cols := [100; 101; 102; 103; 104; k_id];
               t_rows := [[CStr 1; CNone; CInt 0; CTok 1; CTok 2; CInt 5]; [CStr 2; CStr 1; CInt 1; CTok 3; CTok 4; CInt 5]] |} in
   let nm := [(k_id, Single 100); (k_parent, Single 101); (k_time, Single 102); (k_pos, Multi [103; 104])] in
-  wf_map (t_cols t) nm = true /\ raw_id_unique t = false /\ import_csv t false true true nm = ValueErr.
-Proof. vm_compute. repeat split; reflexivity. Qed.
+  wf_map (t_cols t) nm = true /\ wf_table t false nm = true /\
+  exists g, import_csv t false true true nm = Ok g /\ map fst (g_nodes g) = [1; 2] /\ g_edges g = [(1, 2)].
+Proof. vm_compute. repeat split; try reflexivity. eexists. repeat split; reflexivity. Qed.
 
+(* ---------- documented domain limits (confirmed on the implementation) ---------- *)
 (* integer-typed ids with an empty STRING as the parent of a root (DataFrame input): int('') raises ValueError *)
 Example C12_empty_string_parent_integer_ids :
-  import_csv {| t_cols := t_cols T2; t_rows := [[CInt 7; CStr 1; CInt 0; CTok 1; CTok 2; CTok 3; CInt 1; CInt 2]] |} true true true M2 = ValueErr.
+  import_csv {| t_cols := t_cols T2; t_rows := [[CInt 7; empty_str; CInt 0; CTok 1; CTok 2; CTok 3; CInt 1; CInt 2]] |} true true true M2 = ValueErr.
 Proof. vm_compute. reflexivity. Qed.
 
 (* name maps outside wf_map (NoDup (keys ++ list-mapping columns) fails):
